@@ -118,6 +118,7 @@ func goFacts(p *pkgInfo) string {
 	callBinGoArgsCopied := false
 	getFuncClones, getFuncAncIsClone, getFuncStoreLocked, getFuncNoDefFrameWrite := false, false, false, false
 	cloneLocked, cloneCopiesData := false, false
+	callFrameLocked := false
 	selectDoneLocked := false
 	casesPerStatement := false
 	selectCopiesCases := false
@@ -282,7 +283,7 @@ func goFacts(p *pkgInfo) string {
 						// newCallFrame(anc, n) = newFrame(anc, n, <run id of the root frame>) (fingerprinted)
 						if r := exprString(as.Rhs[0]); strings.HasPrefix(r, "newFrame(") || strings.HasPrefix(r, "newCallFrame(") {
 							newFrameCalls = append(newFrameCalls, "getFunc: "+exprString(as.Lhs[0])+" := "+r)
-							if strings.HasPrefix(r, "newFrame(fr,") || strings.HasPrefix(r, "newCallFrame(fr,") {
+							if strings.HasPrefix(r, "newFrame(fr,") || strings.HasPrefix(r, "newCallFrame(fr,") || strings.HasPrefix(r, "newCallFrame(n.interp, fr,") {
 								getFuncAncIsClone = true
 							}
 						}
@@ -317,7 +318,11 @@ func goFacts(p *pkgInfo) string {
 			}
 		}
 		// ---- genFunctionWrapper: one frame per call of the wrapper
-		if fd := common.FindFunc(frun, "", "genFunctionWrapper"); fd != nil {
+		fdw := common.FindFunc(frun, "", "genFunctionWrapperFor") // since dc95f3e genFunctionWrapper(n) = genFunctionWrapperFor(n, false)
+		if fdw == nil {
+			fdw = common.FindFunc(frun, "", "genFunctionWrapper")
+		}
+		if fd := fdw; fd != nil {
 			// the receiver read from the FRAME (`rcvr(f)`) is resolved by bindRecv, a closure made outside the
 			// reflect.MakeFunc callback, which copies a value receiver; it is called when the wrapper is made
 			// (`if rcvr != nil && !late { recv = bindRecv() }`); inside the callback it is called only in the
@@ -386,7 +391,8 @@ func goFacts(p *pkgInfo) string {
 				}
 				for _, s := range fl.Body.List {
 					if as, ok := s.(*ast.AssignStmt); ok && as.Tok == token.DEFINE && len(as.Rhs) == 1 &&
-						(strings.HasPrefix(exprString(as.Rhs[0]), "newFrame(f,") || strings.HasPrefix(exprString(as.Rhs[0]), "newCallFrame(f,")) {
+						(strings.HasPrefix(exprString(as.Rhs[0]), "newFrame(f,") || strings.HasPrefix(exprString(as.Rhs[0]), "newCallFrame(f,") ||
+							strings.HasPrefix(exprString(as.Rhs[0]), "newCallFrame(n.interp, f,")) {
 						wrapperFramePerCall = true
 						newFrameCalls = append(newFrameCalls, "genFunctionWrapper: "+exprString(as.Lhs[0])+" := "+exprString(as.Rhs[0]))
 					}
@@ -417,6 +423,21 @@ func goFacts(p *pkgInfo) string {
 		}
 	}
 	if fint != nil {
+		// newCallFrame reads the run id and the cancellation channel of the interpreter together, under its lock
+		if fd := common.FindFunc(fint, "", "newCallFrame"); fd != nil {
+			lock, read, unlock := -1, -1, -1
+			for k, st := range fd.Body.List {
+				switch t := exprString(st); {
+				case t == "interp.mutex.RLock()":
+					lock = k
+				case strings.HasPrefix(t, "id, done := interp.runid(), interp.done"):
+					read = k
+				case t == "interp.mutex.RUnlock()":
+					unlock = k
+				}
+			}
+			callFrameLocked = lock >= 0 && lock < read && read < unlock
+		}
 		if fd := common.FindFunc(fint, "frame", "clone"); fd != nil && len(fd.Body.List) >= 2 {
 			cloneLocked = exprString(fd.Body.List[0]) == "f.mutex.RLock()" && exprString(fd.Body.List[1]) == "defer f.mutex.RUnlock()"
 			mk, cp := false, false
@@ -439,11 +460,11 @@ func goFacts(p *pkgInfo) string {
 
 	var b strings.Builder
 	b.WriteString("open YaegiVerif.ConcFrames in\n/-- interp/run.go call, callBin, getFunc, genFunctionWrapper, _select; interp/interp.go frame.clone -/\ndef goFacts : GoFacts :=\n")
-	fmt.Fprintf(&b, "  { goBinArgsCopied := %s,\n    srcArgsCopied := %s,\n    frameInClosure := %s,\n    wrapperFramePerCall := %s,\n    wrapperRecvBound := %s,\n    wrapperLateRecv := %s,\n    callBinGoArgsCopied := %s,\n    callBinGoArg := %s,\n    callBinGoStmt := %s,\n    getFuncClones := %s,\n    getFuncAncIsClone := %s,\n    getFuncStoreLocked := %s,\n    getFuncNoDefFrameWrite := %s,\n    cloneLocked := %s,\n    cloneCopiesData := %s,\n    selectDoneLocked := %s,\n    casesPerStatement := %s,\n    selectCopiesCases := %s,\n    callArgStores := %s,\n    frameCellInits := %s,\n    goStmts := %s,\n    newFrameCalls := %s,\n    goValueArgLoop := %s,\n    goValueArgKinds := %s,\n    callBinGoArgLoop := %s,\n    callBinGoArgKinds := %s,\n    srcArgLoopHash := %s,\n    srcArgKinds := %s }\n",
+	fmt.Fprintf(&b, "  { goBinArgsCopied := %s,\n    srcArgsCopied := %s,\n    frameInClosure := %s,\n    wrapperFramePerCall := %s,\n    wrapperRecvBound := %s,\n    wrapperLateRecv := %s,\n    callBinGoArgsCopied := %s,\n    callBinGoArg := %s,\n    callBinGoStmt := %s,\n    getFuncClones := %s,\n    getFuncAncIsClone := %s,\n    getFuncStoreLocked := %s,\n    getFuncNoDefFrameWrite := %s,\n    cloneLocked := %s,\n    cloneCopiesData := %s,\n    callFrameLocked := %s,\n    selectDoneLocked := %s,\n    casesPerStatement := %s,\n    selectCopiesCases := %s,\n    callArgStores := %s,\n    frameCellInits := %s,\n    goStmts := %s,\n    newFrameCalls := %s,\n    goValueArgLoop := %s,\n    goValueArgKinds := %s,\n    callBinGoArgLoop := %s,\n    callBinGoArgKinds := %s,\n    srcArgLoopHash := %s,\n    srcArgKinds := %s }\n",
 		boolLean(goBinArgsCopied), boolLean(srcArgsCopied), boolLean(frameInClosure), boolLean(wrapperFramePerCall), boolLean(wrapperRecvBound), common.LeanStr(wrapperLateRecv),
 		boolLean(callBinGoArgsCopied), common.LeanStr(callBinGoArg), common.LeanStr(callBinGoStmt),
 		boolLean(getFuncClones), boolLean(getFuncAncIsClone), boolLean(getFuncStoreLocked), boolLean(getFuncNoDefFrameWrite),
-		boolLean(cloneLocked), boolLean(cloneCopiesData), boolLean(selectDoneLocked), boolLean(casesPerStatement), boolLean(selectCopiesCases),
+		boolLean(cloneLocked), boolLean(cloneCopiesData), boolLean(callFrameLocked), boolLean(selectDoneLocked), boolLean(casesPerStatement), boolLean(selectCopiesCases),
 		common.LeanStrList(callArgStores), common.LeanStrList(frameCellInits), common.LeanStrList(goStmts), common.LeanStrList(newFrameCalls),
 		common.LeanStrList(goValueArgLoop), common.LeanStrList(goValueArgKinds), common.LeanStrList(callBinGoArgLoop), common.LeanStrList(callBinGoArgKinds),
 		common.LeanStr(srcArgLoop[0]), common.LeanStrList(srcArgKinds))
